@@ -191,6 +191,17 @@ _MORE2 = {
     'C17': ' Savers are also called with their format keywords (pdb header/ter/bfactors, gro precision); TRR dialects include virial and pressure tensors.',
     'C08': ' 30 % of the trajectories tumble (every frame in another orientation, some exact half-turns); superposition is also run with the reference inside the mobile trajectory.',
 }
+_MORE3 = {
+    'C18': ' atom_indices may be unsorted or contain a repeat; relative seeks may land exactly on len (refusal = not offered).',
+    'C19': ' For PDB, coordinates that do not fit the topology handed over with them are offered at any point, also as the first call.',
+    'C20': ' Saves also go through the format\'s own save_xxx method, on names the registry cannot dispatch on (other suffix, other case, none).',
+    'C03': ' In-place changes also go through the setter with the object\'s own array (t.xyz += shift).',
+    'C17': ' mdtraj.utils.lengths_and_angles_to_tilt_factors is held against the components of unitcell_vectors.',
+    'C04': ' Chain ids include the blank id.',
+    'C08': ' Whole-trajectory evaluations share one Topology object for the length of a run; all other evaluations get copies.',
+}
+for _k, _v in _MORE3.items():
+    _MORE2[_k] = _MORE2.get(_k, '') + _v
 for _k, _v in _MORE2.items():
     _MORE[_k] = _MORE.get(_k, '') + _v
 for _k, _v in _MORE.items():
